@@ -43,6 +43,8 @@ def eval_call(eng, e, st):
             return [(st, eng.ev1(e.args[0], s0))]
         if fn == "implies" and fn not in st.env:
             a = eng.truth(st, eng.ev1(e.args[0], st))
+            if z3.is_false(a):
+                return [(st, VBool(True))]
             b = eng.truth(st, eng.ev1(e.args[1], st))
             return [(st, VBool(z3.Implies(a, b)))]
         if fn == "iff" and fn not in st.env:
@@ -51,7 +53,35 @@ def eval_call(eng, e, st):
             return [(st, VBool(a == b))]
         if fn == "ite" and fn not in st.env:
             c = eng.truth(st, eng.ev1(e.args[0], st))
+            if z3.is_true(c):
+                return [(st, eng.ev1(e.args[1], st))]
+            if z3.is_false(c):
+                return [(st, eng.ev1(e.args[2], st))]
             return [(st, ite_val(c, eng.ev1(e.args[1], st), eng.ev1(e.args[2], st)))]
+        if fn == "bxor" and fn not in st.env:
+            a = eng.as_int(st, eng.ev1(e.args[0], st))
+            b = eng.as_int(st, eng.ev1(e.args[1], st))
+            return [(st, VInt(smt.bx_const(a, b)))]
+        if fn == "occ" and fn not in st.env:
+            F = eng.as_iseq(st, eng.ev1(e.args[0], st))
+            N = eng.as_iseq(st, eng.ev1(e.args[1], st))
+            o = eng.as_int(st, eng.ev1(e.args[2], st))
+            return [(st, VBool(smt.occ(F.t, N.t, o)))]
+        if fn == "sub" and fn not in st.env:
+            v = eng.deref(st, eng.ev1(e.args[0], st))
+            a = eng.as_int(st, eng.ev1(e.args[1], st))
+            b = eng.as_int(st, eng.ev1(e.args[2], st))
+            if isinstance(v, VSeq):
+                return [(st, VSeq(IS.sl(v.t, a, b), v.kind))]
+            if isinstance(v, VList):
+                return [(st, VList(VS.sl(v.t, a, b), v.et, v.kind))]
+            raise Unsupported("sub() of " + repr(v))
+        if fn in ("file_content", "file_pos"):
+            v = eng.ev1(e.args[0], st)
+            cell = st.heap.get(getattr(v, "ident", None))
+            if not (isinstance(cell, dict) and cell.get("__kind__") == "file"):
+                raise Unsupported(f"{fn}() of a non-file")
+            return [(st, cell[fn[5:]])]
         if fn == "cast" and fn not in st.env:
             return eng.ev(e.args[1], st)
     if is_logger_call(e):
@@ -364,13 +394,13 @@ def int_to_bytes(eng, st, n, rest, kwargs, node):
     if not eng.spec_mode:
         eng.implicit_error(st, size_t >= 0, "ValueError", node, "to_bytes-length")
         # OverflowError unless 0 <= n < 256**size; for the xor idiom the operand is bigxor of two size-byte values
-        fits = smt_fn("fits_bytes", I, I, B)(n, size_t)
+        fits = smt.fits_bytes(n, size_t)
         eng.implicit_error(st, fits, "OverflowError", node, "to_bytes-overflow")
     st.assume(z3.Implies(size_t >= 0, IS.len(r) == size_t), is_bytes_fact(r))
     # value law for fixed widths
     for w in (1, 2, 4, 8):
         if z3.is_int_value(size_t) and size_t.as_long() == w:
-            fits = smt_fn("fits_bytes", I, I, B)(n, size_t)
+            fits = smt.fits_bytes(n, size_t)
             st.assume(fits == z3.And(0 <= n, n < 256 ** w))
             for k in range(w):
                 p = k if bo == "little" else w - 1 - k
